@@ -1,6 +1,6 @@
 """ast -> lean/Sio/Generated/Constants.lean: the literal constants of the source that the hand-written
-models repeat (the theorems of `Sio/Props/Glue.lean` state that the models' constants equal these, so
-a changed literal in the source makes `lake build Sio.Props.Glue` fail).
+models repeat (the theorems of `Sio/Props/Glue{Codec,Server,Reconnect}.lean` state that the models' constants equal these, so
+a changed literal in the source makes `lake build` of those modules fail).
 
 Nothing is imported or executed.  From `${VERIF_REPO:-/repo}/src/socketio`:
 
@@ -430,7 +430,7 @@ def constants(repo):
 def generate(repo):
     lines = ['/- GENERATED by harness/translate_constants.py from src/socketio/{packet,server,async_server,',
              '   client,async_client,base_client,exceptions}.py and the installed engineio package (`reason`).',
-             '   Regenerated on every run of a check that uses Sio/Props/Glue.lean; do not edit. -/',
+             '   Regenerated on every run of a check that uses Sio/Props/Glue*.lean; do not edit. -/',
              'namespace Sio.Generated', '']
     for name, ty, term, doc in constants(repo):
         lines.append('/-- %s -/' % doc.replace('-/', '- /'))
